@@ -69,23 +69,22 @@ Print Assumptions auto_tag_names_distinct.
 
 (* ======================================================================================= *)
 (* catalog-level part: which tags an interaction carries (model/Catalog.v, proofs/CatalogProofs.v).
-   [build pp bt banned pre post pe = COk c]: c is the catalog of an accepted project whose expanded
+   [build pp bt banned post = COk c]: c is the catalog of an accepted project whose expanded
    directive forest is [post]; itags x = the tag list of interaction x; occurs post t anc = t is a
    node of the forest with ancestors anc (innermost first); made_by t anc i = t is the GET/POST/../
-   Method directive whose interaction id is i.                                                *)
+   Method directive whose interaction id is i; declared_name post n = a top-level TAG directive of
+   the forest has TagName n; t_auto tg = tg was made from a path (catalog.newPathTag).         *)
 
 (* every interaction carries at least one tag *)
-Theorem every_interaction_tagged : forall pp bt banned pre post pe c,
-  NoDup (map fst pe) ->
-  build pp bt banned pre post pe = COk c ->
+Theorem every_interaction_tagged : forall pp bt banned post c,
+  build pp bt banned post = COk c ->
   forall i x, In (i, x) (c_inters c) -> itags x <> [].
 Proof. exact every_interaction_tagged_lemma. Qed.
 Print Assumptions every_interaction_tagged.
 
 (* the tags of an interaction are exactly tag_spec of its directive ... *)
-Theorem explicit_tags_win : forall pp bt banned pre post pe c,
-  NoDup (map fst pe) ->
-  build pp bt banned pre post pe = COk c ->
+Theorem explicit_tags_win : forall pp bt banned post c,
+  build pp bt banned post = COk c ->
   forall i x, In (i, x) (c_inters c) ->
     exists t anc, occurs post t anc /\ made_by t anc i /\ itags x = tag_spec t anc i.
 Proof. exact explicit_tags_win_lemma. Qed.
@@ -105,48 +104,86 @@ Theorem tag_spec_characterised : forall me anc i,
 Proof. exact tag_spec_cases. Qed.
 Print Assumptions tag_spec_characterised.
 
-(* a name in the deciding Tags directive that is no key of the tag collection: "tag not found",
-   located at the Tags directive *)
+(* FULL: "each must be declared by a TAG directive": when a Tags directive decides (the interaction's
+   own, or its parent URL's), every tag the interaction carries is declared by a top-level TAG
+   directive and is a non-automatic tag of the catalog *)
+Theorem explicit_tags_declared : forall pp bt banned post c,
+  build pp bt banned post = COk c ->
+  forall i x, In (i, x) (c_inters c) ->
+    exists t anc, occurs post t anc /\ made_by t anc i /\ itags x = tag_spec t anc i /\
+      forall td, used_tags_directive t anc = Some td ->
+      forall n, In n (itags x) ->
+        declared_name post n /\ exists tg, In (n, tg) (c_tags c) /\ t_auto tg = false /\ declared_tag post n tg.
+Proof. exact explicit_tags_declared_lemma. Qed.
+Print Assumptions explicit_tags_declared.
+
+(* "... or the document is rejected", at full strength.  At the deciding Tags directive: a name for
+   which the tag collection holds no NON-automatic tag - no such key, or only the automatic tag that
+   an earlier interaction created - is answered "tag not found", located at the Tags directive *)
 Theorem undeclared_tag_rejected : forall me anc i tags td n,
   used_tags_directive me anc = Some td -> d_annot td = [] ->
-  In n (d_unnamed td) -> ~ In n (map fst tags) ->
+  In n (d_unnamed td) -> (forall t, In (n, t) tags -> t_auto t = true) ->
   tags_for me anc i tags = CErr (kw_err td (CEMsg "tag not found"%string)).
 Proof. exact tags_for_undeclared. Qed.
 Print Assumptions undeclared_tag_rejected.
 
+(* ... and in every state the fold can reach (cat_inv: the invariant of the catalog under
+   construction, established by build_inv) "no non-automatic tag" is "not declared by a TAG directive" *)
+Theorem undeclared_tag_rejected_in_reachable_states : forall ts c me anc i td n,
+  cat_inv ts c -> used_tags_directive me anc = Some td -> d_annot td = [] ->
+  In n (d_unnamed td) -> ~ declared_name ts n ->
+  tags_for me anc i (c_tags c) = CErr (kw_err td (CEMsg "tag not found"%string)).
+Proof. exact tags_for_undeclared_inv. Qed.
+Print Assumptions undeclared_tag_rejected_in_reachable_states.
+
+(* the Tags adder (core.addTags -> catalog.CheckTags): EVERY Tags directive of the expanded forest of
+   an accepted project - whether or not a method takes its tags from it - has no annotation, has
+   parameters, and names declared tags only *)
+Theorem tags_directive_checked : forall pp bt banned post c,
+  build pp bt banned post = COk c ->
+  forall t anc, occurs post t anc -> d_kind (tree_dir t) = KTags ->
+    d_annot (tree_dir t) = [] /\ d_unnamed (tree_dir t) <> [] /\
+    forall n, In n (d_unnamed (tree_dir t)) -> declared_name post n.
+Proof. exact tags_directive_checked_lemma. Qed.
+Print Assumptions tags_directive_checked.
+
+(* contrapositive: a Tags directive anywhere that names something no TAG directive declares makes
+   build fail *)
+Theorem undeclared_tags_directive_rejected : forall pp bt banned post t anc n,
+  occurs post t anc -> d_kind (tree_dir t) = KTags -> In n (d_unnamed (tree_dir t)) ->
+  ~ declared_name post n ->
+  forall c, build pp bt banned post <> COk c.
+Proof. exact undeclared_tags_directive_rejected_lemma. Qed.
+Print Assumptions undeclared_tags_directive_rejected.
+
 (* in an accepted catalog every tag an interaction carries exists, and every tag is either declared
-   by a top-level TAG directive (title = annotation, or the name when there is none) or is the
-   automatic tag of some interaction's path (title = pathTagTitle path) *)
-Theorem used_tags_exist : forall pp bt banned pre post pe c,
-  NoDup (map fst pe) ->
-  build pp bt banned pre post pe = COk c ->
+   by a top-level TAG directive (not automatic; title = annotation, or the name when there is none) or
+   is the automatic tag of some interaction's path (title = pathTagTitle path) *)
+Theorem used_tags_exist : forall pp bt banned post c,
+  build pp bt banned post = COk c ->
   forall i x n, In (i, x) (c_inters c) -> In n (itags x) ->
-    exists tg, In (n, tg) (c_tags c) /\ (declared_tag post n tg \/ automatic_tag c n tg).
+    exists tg, In (n, tg) (c_tags c) /\
+               ((t_auto tg = false /\ declared_tag post n tg) \/ (t_auto tg = true /\ automatic_tag c n tg)).
 Proof. exact used_tags_exist_lemma. Qed.
 Print Assumptions used_tags_exist.
 
-Theorem declared_title : forall pp bt banned pre post pe c,
-  NoDup (map fst pe) ->
-  build pp bt banned pre post pe = COk c ->
-  forall n tg, In (n, tg) (c_tags c) -> declared_tag post n tg \/ automatic_tag c n tg.
+Theorem declared_title : forall pp bt banned post c,
+  build pp bt banned post = COk c ->
+  forall n tg, In (n, tg) (c_tags c) ->
+    (t_auto tg = false /\ declared_tag post n tg) \/ (t_auto tg = true /\ automatic_tag c n tg).
 Proof. exact declared_title_lemma. Qed.
 Print Assumptions declared_title.
 
-(* FULL statement of "each must be declared by a TAG directive or the document is rejected" (false):
-     build ... = COk c -> In (i,x) (c_inters c) -> used_tags_directive t anc = Some td -> In n (itags x) ->
-     exists tg, In (n, tg) (c_tags c) /\ declared_tag post n tg.
-   REFUTED: a Tags directive may name the AUTOMATIC tag that an earlier interaction created.
-   JSIGHT 0.3 / GET /x {200 any} / GET /y {Tags @x, 200 any} has no TAG directive and is accepted
-   (GET /y is filed under the automatic tag @x of GET /x); with the two GETs swapped the same
-   document is rejected ("tag not found" at the Tags directive, offset 21). *)
-Theorem undeclared_tag_accepted_refuted :
-  (forall t, In t ex_undeclared_forest -> d_kind (tree_dir t) <> KTAG) /\
-  (exists c, ex_build ex_undeclared_forest = COk c /\
-     skeleton_of c = ([(bs "@x", bs "/x", [ex_get_x; ex_get_y], [])],
-                      [(bs "http GET /x", ex_get_x, [bs "@x"]); (bs "http GET /y", ex_get_y, [bs "@x"])])) /\
-  (exists e, ex_build ex_swapped_forest = CErr e /\ ce_kind e = CEMsg "tag not found"%string /\ ce_idx e = 21).
-Proof. exact undeclared_tag_accepted. Qed.
-Print Assumptions undeclared_tag_accepted_refuted.
+(* examples.  JSIGHT 0.3 / GET /x {200 any} / GET /y {Tags @x, 200 any} (no TAG directive): "tag not
+   found" at the Tags directive (offset 39); with the two GETs swapped the same (offset 21): the
+   verdict no longer depends on the order.  JSIGHT 0.3 / TAG @a / URL /u {Tags @b, GET {Tags @a, 200 any}}:
+   the URL's Tags, which no method inherits, is rejected where it stands (offset 27). *)
+Theorem undeclared_tag_examples :
+  (exists e, ex_build ex_undeclared_forest = CErr e /\ ce_kind e = CEMsg "tag not found"%string /\ ce_idx e = 39) /\
+  (exists e, ex_build ex_swapped_forest = CErr e /\ ce_kind e = CEMsg "tag not found"%string /\ ce_idx e = 21) /\
+  (exists e, ex_build ex_unused_tags_forest = CErr e /\ ce_kind e = CEMsg "tag not found"%string /\ ce_idx e = 27).
+Proof. exact CatalogProofs.undeclared_tag_examples. Qed.
+Print Assumptions undeclared_tag_examples.
 
 (* interactions without explicit tags: same automatic tag name <=> same first path segment
    (pathTagTitle = "/" ++ first segment); all_bytes: every byte < 256 *)
@@ -158,10 +195,11 @@ Print Assumptions auto_tags_shared_and_distinct.
 
 (* recorded observation: a DECLARED tag whose name is the automatic name of a path captures the
    interactions of that path.  JSIGHT 0.3 / TAG @x // My X / GET /x {200 any}: GET /x carries the single
-   tag @x (its automatic name), whose title is "My X"; no tag titled "/x" exists. *)
+   tag @x (its automatic name), which is the declared, non-automatic tag titled "My X"; no tag titled
+   "/x" exists. *)
 Theorem declared_tag_captures_automatic :
   exists c, ex_build ex_captured_forest = COk c /\
-    skeleton_of c = ([(bs "@x", bs "My X", [ex_get_x], [])], [(bs "http GET /x", ex_get_x, [bs "@x"])]) /\
+    skeleton_of c = ([(bs "@x", bs "My X", [ex_get_x], [], false)], [(bs "http GET /x", ex_get_x, [bs "@x"])]) /\
     auto_tag_name (bs "/x") = bs "@x" /\ pathTagTitle (bs "/x") = bs "/x".
 Proof. exact declared_tag_captures_automatic_lemma. Qed.
 Print Assumptions declared_tag_captures_automatic.
